@@ -33,12 +33,20 @@ RefById(p, i)  == CHOOSE r \in p.refs : r.id = i
 DeclIds(p) == {d.id : d \in p.decls}
 RefIds(p)  == {r.id : r \in p.refs}
 
-\* no two declarations of one (case-folded) name in one scope
-WellFormed(p) == \A d, e \in p.decls : (d.scope = e.scope /\ d.name = e.name) => d.id = e.id
+\* two name spaces: type names (STRUCT and FUNCTION_BLOCK types, looked up from type positions:
+\* `x : T`, `x : Ns.T`, EXTENDS T) and everything else.  A variable may be spelled like its own
+\* type (`limits : Limits`); the two never denote each other.
+TypeKinds == {"struct", "fb"}
+TypeRoles == {"type", "qtype", "base"}
+NsD(d) == IF d.kind \in TypeKinds THEN "t" ELSE "v"
+NsR(r) == IF r.role \in TypeRoles THEN "t" ELSE "v"
+
+\* no two declarations of one (case-folded) name in one scope and name space
+WellFormed(p) == \A d, e \in p.decls : (d.scope = e.scope /\ d.name = e.name /\ NsD(d) = NsD(e)) => d.id = e.id
 
 \* the declarations a reference can see, and the one it denotes (0: none): the innermost
-Visible(p, r) == IF r.mode = "mem" THEN {d \in p.decls : d.name = r.name /\ d.scope = r.site}
-                 ELSE {d \in p.decls : d.name = r.name /\ d.scope \in Encl(p.par, r.site)}
+Visible(p, r) == IF r.mode = "mem" THEN {d \in p.decls : d.name = r.name /\ NsD(d) = NsR(r) /\ d.scope = r.site}
+                 ELSE {d \in p.decls : d.name = r.name /\ NsD(d) = NsR(r) /\ d.scope \in Encl(p.par, r.site)}
 Resolve(p, r) == LET c == Visible(p, r) IN
                  IF c = {} THEN 0
                  ELSE (CHOOSE d \in c : \A e \in c : Depth(p.par, d.scope) >= Depth(p.par, e.scope)).id
@@ -67,14 +75,14 @@ Preserved(p, q) == WellFormed(q) /\ Binding(q) = Binding(p)
 \*    the renamed reference);
 \*  3 no reference named `new` that can see d's scope and today binds further out or nowhere
 \*    (the renamed d would capture it).
-Clash(p, d, new) == \E e \in p.decls : e.id # d.id /\ e.scope = d.scope /\ e.name = new
+Clash(p, d, new) == \E e \in p.decls : e.id # d.id /\ e.scope = d.scope /\ e.name = new /\ NsD(e) = NsD(d)
 CapturedRefs(p, d, new) ==
   {r \in p.refs : /\ Resolve(p, r) = d.id /\ r.mode = "lex"
-                  /\ \E e \in p.decls : /\ e.name = new /\ e.id # d.id /\ e.scope \in Encl(p.par, r.site)
+                  /\ \E e \in p.decls : /\ e.name = new /\ e.id # d.id /\ NsD(e) = NsD(d) /\ e.scope \in Encl(p.par, r.site)
                                         /\ Depth(p.par, e.scope) > Depth(p.par, d.scope)}
 SeesScope(p, r, s) == IF r.mode = "mem" THEN r.site = s ELSE s \in Encl(p.par, r.site)
 CapturingRefs(p, d, new) ==
-  {r \in p.refs : /\ r.name = new /\ SeesScope(p, r, d.scope) /\ Resolve(p, r) # d.id
+  {r \in p.refs : /\ r.name = new /\ NsR(r) = NsD(d) /\ SeesScope(p, r, d.scope) /\ Resolve(p, r) # d.id
                   /\ LET b == Resolve(p, r) IN
                        b = 0 \/ Depth(p.par, DeclById(p, b).scope) <= Depth(p.par, d.scope)}
 Safe(p, d, new) == ~Clash(p, d, new) /\ CapturedRefs(p, d, new) = {} /\ CapturingRefs(p, d, new) = {}
